@@ -7,8 +7,9 @@ CONSTANTS
   LVals = {0, 1, 2, 3, 4}
   ForbSets = {{}, {3}}
 INVARIANT TypeOK
-INVARIANT TupleNeverInverted
 PROPERTY AcceptedInside
+PROPERTY InvertedTupleRefused
+PROPERTY NothingUnderInverted
 PROPERTY RefusedKeeps
 PROPERTY ValueWritesKeepLimits
 CHECK_DEADLOCK FALSE
